@@ -103,6 +103,12 @@ def mutations(spec):
     for ii, inp in enumerate(spec["inputs"]):
         if inp["kind"] == "spline":
             out.append(("updatable_flag", None, ("updatable", ii)))
+    # structural neighbours: one top-level term (one vf.add() call) duplicated or dropped - the form denotes a different
+    # integrand (A + A = 2A) although the SET of its terms is unchanged by a duplication
+    for ti in range(len(spec["terms"])):
+        extra.append(("term_duplicated", None, ("dup_term", ti)))
+        if len(spec["terms"]) >= 2:
+            extra.append(("term_dropped", None, ("drop_term", ti)))
     return out + extra
 
 
@@ -125,6 +131,10 @@ def apply_mutation(spec, mut):
             node[2] = val
         elif what == "powk":
             node[2] = val
+    elif what == "dup_term":
+        s["terms"].append(copy.deepcopy(s["terms"][val]))
+    elif what == "drop_term":
+        del s["terms"][val]
     elif what == "kind_boundary":
         s["kind"] = "boundary"
         s["bd"] = [0, 0]
